@@ -77,8 +77,11 @@ class Canon:
             cfg = []
             for o, c in sorted(d["configuration"].items(), key=lambda kv: fd.obj_id(kv[0])):
                 vals = list(c["data"].values())
-                assert len(vals) <= 1 and set(c["data"]) == set(c["timestamps"]) == set(c["data_keys"])
-                cfg.append([fd.obj_id(o), vals[0] if vals else None])
+                own = {fd.obj_name(fd.obj_id(o)) + "_cfg"}
+                if len(vals) <= 1 and set(c["data"]) == set(c["timestamps"]) == set(c["data_keys"]) and set(c["data"]) <= own:
+                    cfg.append([fd.obj_id(o), vals[0] if vals else None])
+                else:       # a configuration block that is not the object's own: never equal to a model value
+                    cfg.append([fd.obj_id(o), "inconsistent configuration block"])
             return ["descriptor", u, r, fd.stream_id(d["name"]), dks, oks, cfg]
         if name == "event":
             u, de = self.uid(d["uid"]), self.uid(d["descriptor"])
